@@ -2,7 +2,7 @@ import itertools
 import logging
 from collections import defaultdict
 from .solver import HaploThreader
-from math import ceil, log
+from math import ceil
 from scipy.stats import binom
 
 logger = logging.getLogger(__name__)
@@ -190,8 +190,11 @@ def force_genotypes(path, haplotypes, genotypes, cov_map, allele_depths, error_r
                             if a not in allele_depths[pos][clust]
                             else allele_depths[pos][clust][a]
                         )
-                        prob = binom.pmf(observed_depth, total_depth, allele_mult[a])
-                        log_likelihood += log(prob) if prob > 0 else -float("inf")
+                        # logpmf: with hundreds of reads the probabilities of all candidate
+                        # configurations underflow to 0 and none of them would be chosen
+                        log_likelihood += binom.logpmf(
+                            observed_depth, total_depth, allele_mult[a]
+                        )
 
             if log_likelihood > best_likelihood:
                 best_likelihood = log_likelihood
